@@ -1,12 +1,1530 @@
-//! stub: property C01 has no correspondence harness yet
+//! C01 — HTTP/1 request framing is unambiguous and independent of TCP segmentation.
+//!
+//! Two correspondence levels, both through public API only:
+//!  * `codec`: `actix_http::h1::Codec` driven exactly like the dispatcher's decode loop
+//!    (append segment, decode while progress, stop for ever after the first error);
+//!  * `conn`: `HttpService::build().h1(recording service)` over a scripted in-memory socket
+//!    (`crate::c01_sock`), polled by a wake-driven loop until it completes or goes quiescent.
+//!
+//! Case line:  `<codec|conn> s=<seg-spec> [e=<0|1>] [wp=<0|1>] [x=<fnv64 of expected output>] [cls=<label>] <stream-hex>`
+//!             (`e=1`: the peer closes after the last segment; `wp=1`: every other `poll_write` is `Pending`)
+//! seg-spec:   `w` whole · `b1` one byte per read · `a2` family of *all* 2-cuts (output = whole
+//!             result + `A2:ok` / `A2:<first differing offset>`) · `c<o1>.<o2>…` explicit cut offsets
+//!             (a repeated offset is an empty read).
+//! Output:     one `M:<method>:<target-hex>:<ver>:<hdrs>:<n|p|s>:<body>:<state>` token per request the
+//!             decoder / the service saw, then `R400|R431|RIO` (reject) or `Th<buffered>` / `Tb` (waiting
+//!             for a head / inside a body); conn level adds `S:<statuses written>` and `C<0|1>`.
+use std::{
+    cell::RefCell,
+    future::Future,
+    pin::Pin,
+    rc::Rc,
+    sync::{
+        atomic::{AtomicBool, Ordering},
+        Arc,
+    },
+    task::{Context, Poll, Wake, Waker},
+};
+
+use actix_codec::Decoder as _;
+use actix_http::{h1, HttpMessage as _, HttpService, Request, Response};
+use actix_service::{fn_service, Service as _, ServiceFactory as _};
+use bytes::BytesMut;
+use futures_util::StreamExt as _;
+
 use super::Prop;
-use crate::common::CaseResult;
+use crate::common::{block_on_system, hex, hex0, kv, unhex, CaseResult, Ctx, Rng, Tier};
+
+#[path = "../c01_sock.rs"]
+mod c01_sock;
+use c01_sock::{ScriptSock, SockLog, Step};
+
+const RULE: &str = "cases = byte streams produced by the harness's own encoder from abstract request pipelines \
+(1-6 requests; GET/HEAD/POST/PUT/DELETE/OPTIONS/CONNECT/custom; HTTP/1.0 and 1.1; no body / Content-Length / chunked with \
+sizes 0..70000, extensions, BWS, hex case; header case/OWS variation; upgrade), optionally with one malformed-framing \
+class injected at a random position and well-formed requests after it, each delivered under every segmentation family \
+(whole, ALL 2-cuts, 1-byte reads, random k-cuts with empty reads); level `codec` drives h1::Codec directly, level `conn` \
+drives HttpService::h1 with a recording service over a scripted socket (Pending between reads, optional EOF); \
+non-trivial = at least one request was delivered or a reject was produced; distinct = distinct (case, output) hashes";
+
+pub const MAX_BUFFER_SIZE: usize = 131_072;
+
+// ------------------------------------------------------------------------------------------
+// canonical form
+
+#[derive(Clone, Debug, PartialEq, Eq)]
+pub struct Msg {
+    pub method: String,
+    pub target: Vec<u8>,
+    pub ver: u8,
+    pub hdrs: Vec<(String, Vec<u8>)>,
+    /// n = no body, p = payload (length / chunked), s = stream (upgrade / CONNECT)
+    pub kind: char,
+    pub body: Vec<u8>,
+    /// c = complete, p = still expecting bytes, i = Incomplete error, e = EncodingCorrupted, o = other error
+    pub done: char,
+}
+
+pub fn fnv64(bs: &[u8]) -> u64 {
+    let mut h: u64 = 0xcbf2_9ce4_8422_2325;
+    for b in bs {
+        h ^= *b as u64;
+        h = h.wrapping_mul(0x0000_0100_0000_01b3);
+    }
+    h
+}
+
+fn show_body(b: &[u8]) -> String {
+    if b.is_empty() {
+        "-".into()
+    } else if b.len() <= 24 {
+        hex0(b)
+    } else {
+        format!("#{}.{:016x}", b.len(), fnv64(b))
+    }
+}
+
+fn show_hdrs(h: &[(String, Vec<u8>)]) -> String {
+    if h.is_empty() {
+        return "-".into();
+    }
+    let mut v: Vec<&(String, Vec<u8>)> = h.iter().collect();
+    v.sort_by(|a, b| a.0.cmp(&b.0)); // stable: values of one name stay in arrival order
+    v.iter().map(|(n, val)| format!("{}={}", n, hex0(val))).collect::<Vec<_>>().join(",")
+}
+
+impl Msg {
+    pub fn show(&self) -> String {
+        format!(
+            "M:{}:{}:{}:{}:{}:{}:{}",
+            self.method,
+            hex0(&self.target),
+            if self.ver == 1 { "1.1" } else { "1.0" },
+            show_hdrs(&self.hdrs),
+            self.kind,
+            show_body(&self.body),
+            self.done
+        )
+    }
+}
+
+#[derive(Clone, Debug, PartialEq, Eq)]
+pub enum End {
+    Reject(u16),
+    /// payload decoder error (`ParseError::Io` at codec level)
+    RejectIo,
+    TailHead(usize),
+    TailBody,
+    /// the decode loop kept yielding messages without consuming input
+    Livelock,
+}
+
+impl End {
+    fn show(&self) -> String {
+        match self {
+            End::Reject(s) => format!("R{}", s),
+            End::RejectIo => "RIO".into(),
+            End::TailHead(n) => format!("Th{}", n),
+            End::TailBody => "Tb".into(),
+            End::Livelock => "LIVELOCK".into(),
+        }
+    }
+    fn is_reject(&self) -> bool {
+        matches!(self, End::Reject(_) | End::RejectIo)
+    }
+}
+
+fn show_run(msgs: &[Msg], end: &End) -> String {
+    let mut v: Vec<String> = msgs.iter().map(|m| m.show()).collect();
+    v.push(end.show());
+    v.join(" ")
+}
+
+// ------------------------------------------------------------------------------------------
+// segmentation specs
+
+#[derive(Clone, Debug)]
+enum Spec {
+    Whole,
+    Bytes1,
+    All2,
+    Cuts(Vec<usize>),
+}
+
+fn parse_spec(s: &str) -> Option<Spec> {
+    match s {
+        "w" => Some(Spec::Whole),
+        "b1" => Some(Spec::Bytes1),
+        "a2" => Some(Spec::All2),
+        _ => {
+            let r = s.strip_prefix('c')?;
+            let mut v = Vec::new();
+            for p in r.split('.') {
+                v.push(p.parse::<usize>().ok()?);
+            }
+            Some(Spec::Cuts(v))
+        }
+    }
+}
+
+/// split `stream` at the given offsets (clamped, made monotone): k cuts ⇒ k+1 segments
+fn split_at(stream: &[u8], cuts: &[usize]) -> Vec<Vec<u8>> {
+    let mut segs = Vec::new();
+    let mut prev = 0usize;
+    for &c in cuts {
+        let c = c.min(stream.len()).max(prev);
+        segs.push(stream[prev..c].to_vec());
+        prev = c;
+    }
+    segs.push(stream[prev..].to_vec());
+    segs
+}
+
+fn segments(stream: &[u8], spec: &Spec) -> Vec<Vec<u8>> {
+    match spec {
+        Spec::Whole | Spec::All2 => vec![stream.to_vec()],
+        Spec::Bytes1 => stream.iter().map(|b| vec![*b]).collect(),
+        Spec::Cuts(c) => split_at(stream, c),
+    }
+}
+
+// ------------------------------------------------------------------------------------------
+// level 1: the real h1::Codec
+
+fn req_to_msg(req: &Request, kind: char) -> Msg {
+    let mut hdrs: Vec<(String, Vec<u8>)> = Vec::new();
+    for (n, v) in req.headers().iter() {
+        hdrs.push((n.as_str().to_owned(), v.as_bytes().to_vec()));
+    }
+    Msg {
+        method: req.method().as_str().to_owned(),
+        target: req.uri().to_string().into_bytes(),
+        ver: if req.version() == actix_http::Version::HTTP_11 { 1 } else { 0 },
+        hdrs,
+        kind,
+        body: Vec::new(),
+        done: if kind == 'n' { 'c' } else { 'p' },
+    }
+}
+
+/// Drive the codec the way `InnerDispatcher::poll_request` does. Must run inside a System.
+fn run_codec(segs: &[Vec<u8>]) -> (Vec<Msg>, End) {
+    let mut codec = h1::Codec::default();
+    let mut buf = BytesMut::new();
+    let mut msgs: Vec<Msg> = Vec::new();
+    for seg in segs {
+        buf.extend_from_slice(seg);
+        // every message consumes a byte or empties the payload slot: more than this many
+        // iterations for one read means the decoder yields without progress
+        let mut budget = 2 * buf.len() + 16;
+        loop {
+            if budget == 0 {
+                return (msgs, End::Livelock);
+            }
+            budget -= 1;
+            match codec.decode(&mut buf) {
+                Ok(Some(h1::Message::Item(req))) => {
+                    let kind = match codec.message_type() {
+                        h1::MessageType::None => 'n',
+                        h1::MessageType::Payload => 'p',
+                        h1::MessageType::Stream => 's',
+                    };
+                    msgs.push(req_to_msg(&req, kind));
+                }
+                Ok(Some(h1::Message::Chunk(Some(b)))) => {
+                    if let Some(m) = msgs.last_mut() {
+                        m.body.extend_from_slice(&b);
+                    }
+                }
+                Ok(Some(h1::Message::Chunk(None))) => {
+                    if let Some(m) = msgs.last_mut() {
+                        m.done = 'c';
+                    }
+                }
+                Ok(None) => break,
+                Err(e) => {
+                    let end = match e {
+                        actix_http::error::ParseError::TooLarge => End::Reject(431),
+                        actix_http::error::ParseError::Io(_) => End::RejectIo,
+                        _ => End::Reject(400),
+                    };
+                    return (msgs, end);
+                }
+            }
+        }
+    }
+    let in_body = msgs.last().map(|m| m.done == 'p').unwrap_or(false);
+    let end = if in_body { End::TailBody } else { End::TailHead(buf.len()) };
+    (msgs, end)
+}
+
+// ------------------------------------------------------------------------------------------
+// level 2: HttpService::h1 + recording service over the scripted socket
+
+struct Flag(AtomicBool);
+impl Wake for Flag {
+    fn wake(self: Arc<Self>) {
+        self.0.store(true, Ordering::SeqCst);
+    }
+    fn wake_by_ref(self: &Arc<Self>) {
+        self.0.store(true, Ordering::SeqCst);
+    }
+}
+
+#[derive(Clone, Debug, PartialEq, Eq)]
+struct ConnRun {
+    calls: Vec<Msg>,
+    statuses: Vec<u16>,
+    closed: bool,
+    livelock: bool,
+    junk: bool,
+}
+
+impl ConnRun {
+    fn show(&self) -> String {
+        let mut v: Vec<String> = self.calls.iter().map(|m| m.show()).collect();
+        v.push(format!(
+            "S:{}",
+            if self.statuses.is_empty() {
+                "-".to_owned()
+            } else {
+                self.statuses.iter().map(|s| s.to_string()).collect::<Vec<_>>().join(",")
+            }
+        ));
+        v.push(format!("C{}", self.closed as u8));
+        if self.livelock {
+            v.push("LIVELOCK".into());
+        }
+        if self.junk {
+            v.push("JUNK".into());
+        }
+        v.join(" ")
+    }
+}
+
+/// statuses of the responses found in the bytes the server wrote (own small parser;
+/// every response of the recording service and every dispatcher error response has an
+/// explicit content-length)
+fn parse_statuses(w: &[u8]) -> (Vec<u16>, bool) {
+    let mut out = Vec::new();
+    let mut p = 0usize;
+    while p < w.len() {
+        let rest = &w[p..];
+        let Some(e) = find(rest, b"\r\n\r\n") else { return (out, true) };
+        let head = &rest[..e];
+        if head.len() < 12 || !head.starts_with(b"HTTP/1.") {
+            return (out, true);
+        }
+        let Ok(st) = std::str::from_utf8(&head[9..12]).unwrap_or("x").parse::<u16>() else { return (out, true) };
+        out.push(st);
+        let mut cl = 0usize;
+        for line in head.split(|b| *b == b'\n') {
+            let l = String::from_utf8_lossy(line).to_ascii_lowercase();
+            if let Some(v) = l.strip_prefix("content-length:") {
+                cl = v.trim().parse().unwrap_or(0);
+            }
+        }
+        p += e + 4 + cl;
+    }
+    (out, p != w.len())
+}
+
+fn find(h: &[u8], n: &[u8]) -> Option<usize> {
+    if h.len() < n.len() {
+        return None;
+    }
+    (0..=h.len() - n.len()).find(|&i| &h[i..i + n.len()] == n)
+}
+
+fn run_conn(segs: &[Vec<u8>], eof: bool, wp: bool) -> ConnRun {
+    block_on_system(async move {
+        let calls: Rc<RefCell<Vec<Msg>>> = Rc::new(RefCell::new(Vec::new()));
+        let calls2 = calls.clone();
+        let svc = HttpService::build()
+            .h1(fn_service(move |mut req: Request| {
+                let calls = calls2.clone();
+                async move {
+                    let mut pl = req.take_payload();
+                    let idx = {
+                        let mut c = calls.borrow_mut();
+                        // the service cannot see the codec's n/p/s classification
+                        let mut m = req_to_msg(&req, '?');
+                        m.done = 'p';
+                        c.push(m);
+                        c.len() - 1
+                    };
+                    let mut done = 'c';
+                    while let Some(item) = pl.next().await {
+                        match item {
+                            Ok(b) => calls.borrow_mut()[idx].body.extend_from_slice(&b),
+                            Err(e) => {
+                                done = match e {
+                                    actix_http::error::PayloadError::Incomplete(_) => 'i',
+                                    actix_http::error::PayloadError::EncodingCorrupted => 'e',
+                                    _ => 'o',
+                                };
+                                break;
+                            }
+                        }
+                    }
+                    calls.borrow_mut()[idx].done = done;
+                    Ok::<_, actix_http::Error>(Response::ok())
+                }
+            }))
+            .new_service(())
+            .await
+            .expect("service");
+        let mut steps: Vec<Step> = Vec::new();
+        for (i, s) in segs.iter().enumerate() {
+            if i > 0 {
+                steps.push(Step::Pending);
+            }
+            steps.push(Step::Data(s.clone()));
+        }
+        if eof {
+            steps.push(Step::Pending);
+            steps.push(Step::Eof);
+        }
+        let log = Rc::new(RefCell::new(SockLog::default()));
+        let sock = ScriptSock::new(steps, wp, log.clone());
+        let mut fut: Pin<Box<dyn Future<Output = _>>> = Box::pin(svc.call((sock, None)));
+        let flag = Arc::new(Flag(AtomicBool::new(true)));
+        let waker = Waker::from(flag.clone());
+        let mut cx = Context::from_waker(&waker);
+        let mut polls = 0usize;
+        let mut completed = false;
+        let mut livelock = false;
+        loop {
+            if !flag.0.swap(false, Ordering::SeqCst) {
+                break; // quiescent: nobody asked to be polled again
+            }
+            polls += 1;
+            if polls > 400_000 {
+                livelock = true;
+                break;
+            }
+            if let Poll::Ready(_r) = fut.as_mut().poll(&mut cx) {
+                completed = true;
+                break;
+            }
+        }
+        drop(fut);
+        let l = log.borrow();
+        let (statuses, junk) = parse_statuses(&l.written);
+        let calls = calls.borrow().clone();
+        ConnRun { calls, statuses, closed: completed || l.shutdown, livelock, junk }
+    })
+}
+
+// ------------------------------------------------------------------------------------------
+// independent reference: a strict RFC 7230 §3.3 / §4.1 request-stream parser (whole stream,
+// sequential), with the documented tolerances (BWS after chunk-size, lax chunk-ext bytes,
+// no trailers, actix's HTTP/1.0-POST and upgrade rules).
+
+fn is_tchar(b: u8) -> bool {
+    b.is_ascii_alphanumeric() || b"!#$%&'*+-.^_`|~".contains(&b)
+}
+
+fn trim_ows(v: &[u8]) -> &[u8] {
+    let mut a = 0;
+    let mut b = v.len();
+    while a < b && (v[a] == b' ' || v[a] == b'\t') {
+        a += 1;
+    }
+    while b > a && (v[b - 1] == b' ' || v[b - 1] == b'\t') {
+        b -= 1;
+    }
+    &v[a..b]
+}
+
+fn safe_target(t: &[u8]) -> bool {
+    const OK: &[u8] = b"/?&=._-~%+:@,;!$'()*";
+    !t.is_empty() && t.iter().all(|b| b.is_ascii_alphanumeric() || OK.contains(b))
+}
+
+pub enum RefOut {
+    /// the stream leaves the class for which the reference claims to know the answer
+    OutOfClass(&'static str),
+    Run(Vec<Msg>, End, Option<&'static str>),
+}
+
+pub fn reference(s: &[u8]) -> RefOut {
+    let mut msgs: Vec<Msg> = Vec::new();
+    let mut pos = 0usize;
+    loop {
+        // ---- head
+        let start = pos;
+        let mut p = pos;
+        while s.len() >= p + 2 && &s[p..p + 2] == b"\r\n" {
+            p += 2;
+        }
+        let Some(e) = find(&s[p..], b"\r\n\r\n") else {
+            if s[p..].contains(&b'\n') && find(&s[p..], b"\n").map(|i| i == 0 || s[p + i - 1] != b'\r').unwrap_or(false) {
+                return RefOut::OutOfClass("bare LF");
+            }
+            return if s.len() - start >= MAX_BUFFER_SIZE {
+                RefOut::Run(msgs, End::Reject(431), Some("oversized-head"))
+            } else {
+                RefOut::Run(msgs, End::TailHead(s.len() - start), None)
+            };
+        };
+        let head = &s[p..p + e];
+        pos = p + e + 4;
+        let mut lines: Vec<&[u8]> = Vec::new();
+        {
+            let mut q = 0usize;
+            while let Some(i) = find(&head[q..], b"\r\n") {
+                lines.push(&head[q..q + i]);
+                q += i + 2;
+            }
+            lines.push(&head[q..]);
+        }
+        if head.contains(&b'\n') && lines.iter().any(|l| l.contains(&b'\n') || l.contains(&b'\r')) {
+            return RefOut::OutOfClass("bare CR/LF inside head");
+        }
+        let rl: Vec<&[u8]> = lines[0].split(|b| *b == b' ').collect();
+        if rl.len() != 3 || rl[0].is_empty() || !rl[0].iter().all(|b| is_tchar(*b)) {
+            return RefOut::Run(msgs, End::Reject(400), Some("syntax-request-line"));
+        }
+        if !safe_target(rl[1]) {
+            return RefOut::OutOfClass("target");
+        }
+        let ver = match rl[2] {
+            b"HTTP/1.1" => 1u8,
+            b"HTTP/1.0" => 0u8,
+            _ => return RefOut::Run(msgs, End::Reject(400), Some("syntax-version")),
+        };
+        let mut hdrs: Vec<(String, Vec<u8>)> = Vec::new();
+        for l in &lines[1..] {
+            let Some(c) = l.iter().position(|b| *b == b':') else {
+                return RefOut::Run(msgs, End::Reject(400), Some("syntax-header-no-colon"));
+            };
+            let name = &l[..c];
+            if name.is_empty() || !name.iter().all(|b| is_tchar(*b)) {
+                return RefOut::Run(msgs, End::Reject(400), Some("syntax-header-name"));
+            }
+            if name.len() > 65535 {
+                // limit of the `http` crate's HeaderName (documented implementation limit)
+                return RefOut::Run(msgs, End::Reject(400), Some("header-name-too-long"));
+            }
+            let val = trim_ows(&l[c + 1..]);
+            if !val.iter().all(|b| *b == b'\t' || (*b >= 0x20 && *b != 0x7f)) {
+                return RefOut::Run(msgs, End::Reject(400), Some("syntax-header-value"));
+            }
+            hdrs.push((String::from_utf8_lossy(name).to_ascii_lowercase(), val.to_vec()));
+        }
+        if hdrs.len() > 96 {
+            return RefOut::Run(msgs, End::Reject(431), Some("too-many-headers"));
+        }
+        let method = String::from_utf8_lossy(rl[0]).into_owned();
+        // ---- framing (RFC 7230 §3.3.3 for requests + the property's malformed classes)
+        let ascii = |v: &[u8]| v.iter().all(|b| *b == b'\t' || (*b >= 0x20 && *b < 0x7f));
+        let cls: Vec<&Vec<u8>> = hdrs.iter().filter(|h| h.0 == "content-length").map(|h| &h.1).collect();
+        let tes: Vec<&Vec<u8>> = hdrs.iter().filter(|h| h.0 == "transfer-encoding").map(|h| &h.1).collect();
+        let mut reject: Option<&'static str> = None;
+        let mut chunked = false;
+        let mut cl: Option<u64> = None;
+        if !tes.is_empty() {
+            if ver == 0 {
+                reject = Some("te-on-http10");
+            } else if tes.len() > 1 {
+                reject = Some("te-repeated");
+            } else if !(ascii(tes[0]) && tes[0].eq_ignore_ascii_case(b"chunked")) {
+                reject = Some("te-not-chunked");
+            } else if !cls.is_empty() {
+                reject = Some("cl-and-te");
+            } else {
+                chunked = true;
+            }
+        }
+        if reject.is_none() && !cls.is_empty() {
+            if cls.len() > 1 {
+                reject = Some("cl-repeated");
+            } else {
+                let v = cls[0];
+                if v.is_empty() || !v.iter().all(|b| b.is_ascii_digit()) {
+                    reject = Some("cl-not-a-number");
+                } else {
+                    match std::str::from_utf8(v).unwrap().parse::<u64>() {
+                        Ok(n) => cl = Some(n),
+                        Err(_) => reject = Some("cl-overflow"),
+                    }
+                }
+            }
+        }
+        let upgrade_ws = hdrs.iter().any(|h| h.0 == "upgrade" && ascii(&h.1) && h.1.eq_ignore_ascii_case(b"websocket"));
+        if reject.is_none() && ver == 0 && method == "POST" && !chunked && !upgrade_ws && cl.is_none() {
+            reject = Some("http10-post-without-cl");
+        }
+        if let Some(r) = reject {
+            return RefOut::Run(msgs, End::Reject(400), Some(r));
+        }
+        let kind = if chunked {
+            'p'
+        } else if upgrade_ws {
+            's'
+        } else if cl.unwrap_or(0) > 0 {
+            'p'
+        } else if method == "CONNECT" {
+            's'
+        } else {
+            'n'
+        };
+        let mut m = Msg { method, target: rl[1].to_vec(), ver, hdrs, kind, body: Vec::new(), done: 'p' };
+        // ---- body
+        if kind == 'n' {
+            m.done = 'c';
+            msgs.push(m);
+            continue;
+        }
+        if kind == 's' {
+            m.body = s[pos..].to_vec();
+            msgs.push(m);
+            return RefOut::Run(msgs, End::TailBody, None);
+        }
+        if !chunked {
+            let n = cl.unwrap();
+            let avail = (s.len() - pos) as u64;
+            if avail < n {
+                m.body = s[pos..].to_vec();
+                msgs.push(m);
+                return RefOut::Run(msgs, End::TailBody, None);
+            }
+            m.body = s[pos..pos + n as usize].to_vec();
+            m.done = 'c';
+            pos += n as usize;
+            msgs.push(m);
+            continue;
+        }
+        // chunked
+        macro_rules! partial {
+            () => {{
+                msgs.push(m);
+                return RefOut::Run(msgs, End::TailBody, None);
+            }};
+        }
+        macro_rules! bad {
+            ($r:expr) => {{
+                msgs.push(m);
+                return RefOut::Run(msgs, End::RejectIo, Some($r));
+            }};
+        }
+        'chunks: loop {
+            // chunk-size = 1*HEXDIG
+            let mut size: u128 = 0;
+            let mut digits = 0usize;
+            loop {
+                if pos >= s.len() {
+                    partial!()
+                }
+                let b = s[pos];
+                let d = match b {
+                    b'0'..=b'9' => b - b'0',
+                    b'a'..=b'f' => b - b'a' + 10,
+                    b'A'..=b'F' => b - b'A' + 10,
+                    _ => break,
+                };
+                size = size * 16 + d as u128;
+                digits += 1;
+                pos += 1;
+                if size > u64::MAX as u128 {
+                    bad!("chunk-size-overflow")
+                }
+            }
+            if digits == 0 {
+                bad!("chunk-size-empty")
+            }
+            // BWS (tolerance O2)
+            let mut lws = false;
+            while pos < s.len() && (s[pos] == b' ' || s[pos] == b'\t') {
+                pos += 1;
+                lws = true;
+            }
+            if pos >= s.len() {
+                partial!()
+            }
+            if s[pos] == b';' {
+                pos += 1;
+                loop {
+                    if pos >= s.len() {
+                        partial!()
+                    }
+                    let b = s[pos];
+                    if b == b'\r' {
+                        break;
+                    }
+                    if b <= 0x08 || (0x0a..=0x1f).contains(&b) || b == 0x7f {
+                        bad!("chunk-ext-control-char")
+                    }
+                    pos += 1;
+                }
+            }
+            if s[pos] != b'\r' {
+                if lws {
+                    bad!("chunk-size-then-garbage")
+                } else {
+                    bad!("chunk-size-bad-digit")
+                }
+            }
+            pos += 1;
+            if pos >= s.len() {
+                partial!()
+            }
+            if s[pos] != b'\n' {
+                bad!("chunk-size-line-no-lf")
+            }
+            pos += 1;
+            if size == 0 {
+                // last-chunk; trailers are not supported (documented over-strictness)
+                if pos >= s.len() {
+                    partial!()
+                }
+                if s[pos] != b'\r' {
+                    bad!("chunk-trailer-or-garbage")
+                }
+                pos += 1;
+                if pos >= s.len() {
+                    partial!()
+                }
+                if s[pos] != b'\n' {
+                    bad!("chunk-end-no-lf")
+                }
+                pos += 1;
+                m.done = 'c';
+                msgs.push(m);
+                break 'chunks;
+            }
+            let avail = (s.len() - pos) as u128;
+            if avail < size {
+                m.body.extend_from_slice(&s[pos..]);
+                partial!()
+            }
+            m.body.extend_from_slice(&s[pos..pos + size as usize]);
+            pos += size as usize;
+            if pos >= s.len() {
+                partial!()
+            }
+            if s[pos] != b'\r' {
+                bad!("chunk-data-no-cr")
+            }
+            pos += 1;
+            if pos >= s.len() {
+                partial!()
+            }
+            if s[pos] != b'\n' {
+                bad!("chunk-data-no-lf")
+            }
+            pos += 1;
+        }
+    }
+}
+
+// ------------------------------------------------------------------------------------------
+// run one case
+
+fn first_diff(a: &str, b: &str) -> String {
+    let ta: Vec<&str> = a.split(' ').collect();
+    let tb: Vec<&str> = b.split(' ').collect();
+    for i in 0..ta.len().max(tb.len()) {
+        let x = ta.get(i).copied().unwrap_or("<none>");
+        let y = tb.get(i).copied().unwrap_or("<none>");
+        if x != y {
+            let cut = |s: &str| if s.len() > 160 { format!("{}…", &s[..160]) } else { s.to_owned() };
+            return format!("token {}: got {} want {}", i, cut(x), cut(y));
+        }
+    }
+    "equal".into()
+}
+
+/// compare an implementation run with the reference verdict; returns (signature, detail)
+fn judge(msgs: &[Msg], end: &End, r: &RefOut, conn: bool) -> Option<(String, String)> {
+    let RefOut::Run(rm, rend, reason) = r else { return None };
+    let got = show_run(msgs, end);
+    let want = show_run(rm, rend);
+    let same_msgs = msgs.iter().map(|m| m.show()).collect::<Vec<_>>() == rm.iter().map(|m| m.show()).collect::<Vec<_>>();
+    if rend.is_reject() {
+        if !end.is_reject() {
+            return Some((
+                format!("accepts-malformed:{}", reason.unwrap_or("?")),
+                format!("reference rejects ({}), implementation goes on: {}", reason.unwrap_or("?"), first_diff(&got, &want)),
+            ));
+        }
+        if !same_msgs {
+            return Some(("framing-mismatch".into(), first_diff(&got, &want)));
+        }
+        if !conn {
+            // at codec level a payload-decoder error surfaces as ParseError::Io; which status the
+            // connection answers with is judged at conn level
+            return None;
+        }
+        return None;
+    }
+    if end.is_reject() {
+        return Some(("rejects-wellformed".into(), first_diff(&got, &want)));
+    }
+    if got != want {
+        return Some(("framing-mismatch".into(), first_diff(&got, &want)));
+    }
+    None
+}
+
+/// is a 431 in a segmented run, where the whole-stream run goes on, explained by the
+/// documented head-size limit? (the decoder tests the limit only while a head is incomplete)
+fn toolarge_boundary(stream: &[u8], seg_end: &End) -> bool {
+    *seg_end == End::Reject(431) && stream.len() >= MAX_BUFFER_SIZE
+}
+
+fn run(line: &str) -> CaseResult {
+    let words: Vec<&str> = line.split_ascii_whitespace().collect();
+    if words.len() < 3 {
+        return CaseResult { output: "bad-case".into(), fail: None, nontrivial: false, tags: vec!["bad-case".into()] };
+    }
+    let level = words[0];
+    let Some(spec) = kv(line, "s").and_then(parse_spec) else {
+        return CaseResult { output: "bad-case".into(), fail: None, nontrivial: false, tags: vec!["bad-case".into()] };
+    };
+    let Some(stream) = unhex(words[words.len() - 1]) else {
+        return CaseResult { output: "bad-case".into(), fail: None, nontrivial: false, tags: vec!["bad-case".into()] };
+    };
+    let cls = kv(line, "cls").unwrap_or("none").to_owned();
+    let want_hash = kv(line, "x").and_then(|x| u64::from_str_radix(x, 16).ok());
+    let mut tags: Vec<String> = vec![level.to_owned(), format!("cls:{}", cls)];
+    tags.push(
+        match spec {
+            Spec::Whole => "seg:whole",
+            Spec::Bytes1 => "seg:1-byte",
+            Spec::All2 => "seg:all-2-cuts",
+            Spec::Cuts(_) => "seg:k-cuts",
+        }
+        .to_owned(),
+    );
+    let refo = reference(&stream);
+    match level {
+        "codec" => {
+            let segs = segments(&stream, &spec);
+            let stream2 = stream.clone();
+            let spec2 = spec.clone();
+            let (msgs, end, whole, a2) = block_on_system(async move {
+                let (m, e) = run_codec(&segs);
+                let whole = if matches!(spec2, Spec::Whole | Spec::All2) { None } else { Some(run_codec(&[stream2.clone()])) };
+                let mut a2: Option<Option<usize>> = None;
+                if matches!(spec2, Spec::All2) {
+                    let w = show_run(&m, &e);
+                    let mut bad = None;
+                    for k in 1..stream2.len() {
+                        let (m2, e2) = run_codec(&[stream2[..k].to_vec(), stream2[k..].to_vec()]);
+                        if show_run(&m2, &e2) != w && !toolarge_boundary(&stream2, &e2) {
+                            bad = Some(k);
+                            break;
+                        }
+                    }
+                    a2 = Some(bad);
+                }
+                (m, e, whole, a2)
+            });
+            let mut out = show_run(&msgs, &end);
+            let mut res = CaseResult { output: String::new(), fail: None, nontrivial: !msgs.is_empty() || end.is_reject(), tags };
+            if let Some(bad) = a2 {
+                match bad {
+                    None => out.push_str(" A2:ok"),
+                    Some(k) => {
+                        out.push_str(&format!(" A2:{}", k));
+                        res = res.fail("segmentation-dependent", format!("2-cut at offset {} gives a different result than the whole stream", k));
+                    }
+                }
+            }
+            if let Some((wm, we)) = whole {
+                let w = show_run(&wm, &we);
+                let g = show_run(&msgs, &end);
+                if w != g && !toolarge_boundary(&stream, &end) {
+                    res = res.fail("segmentation-dependent", format!("whole-stream run differs: {}", first_diff(&g, &w)));
+                }
+                if w != g && toolarge_boundary(&stream, &end) {
+                    res.tags.push("toolarge-boundary".into());
+                }
+            }
+            if end == End::Livelock {
+                res = res.fail("decode-livelock", "Codec::decode kept returning messages without consuming input".into());
+            }
+            // generator ground truth / reference apply to the whole-stream meaning of the bytes
+            let skip_ref = toolarge_boundary(&stream, &end) && matches!(refo, RefOut::Run(_, ref e, _) if *e != End::Reject(431));
+            if !skip_ref {
+                if let Some((sig, d)) = judge(&msgs, &end, &refo, false) {
+                    res = res.fail(&sig, d);
+                }
+                if let Some(h) = want_hash {
+                    let norm = normalise_reject(&show_run(&msgs, &end));
+                    if fnv64(norm.as_bytes()) != h {
+                        let d = match &refo {
+                            RefOut::Run(rm, re, _) => first_diff(&show_run(&msgs, &end), &show_run(rm, re)),
+                            _ => "no reference".into(),
+                        };
+                        res = res.fail(&format!("ground-truth-mismatch:{}", cls), format!("generator's expected requests differ from what the codec delivered: {}", d));
+                    }
+                }
+            }
+            match &refo {
+                RefOut::OutOfClass(w) => res.tags.push(format!("ref:out-of-class:{}", w)),
+                RefOut::Run(_, e, r) => {
+                    res.tags.push(format!("ref:{}", if e.is_reject() { "reject" } else { "accept" }));
+                    if let Some(r) = r {
+                        res.tags.push(format!("reason:{}", r));
+                    }
+                }
+            }
+            res.output = out;
+            res
+        }
+        "conn" => {
+            let eof = kv(line, "e") == Some("1");
+            let wp = kv(line, "wp") == Some("1");
+            let segs = segments(&stream, &spec);
+            let r = run_conn(&segs, eof, wp);
+            let mut res = CaseResult { output: r.show(), fail: None, nontrivial: !r.calls.is_empty() || !r.statuses.is_empty(), tags };
+            res.tags.push(format!("eof:{}", eof as u8));
+            res.tags.push(format!("write-pending:{}", wp as u8));
+            if r.livelock {
+                res = res.fail("conn-livelock", "connection future kept waking itself for 400000 polls".into());
+            }
+            if r.junk {
+                res = res.fail("conn-unparsable-response-bytes", "bytes written by the server are not a sequence of complete responses".into());
+            }
+            if matches!(spec, Spec::All2) {
+                let w = r.show();
+                for k in 1..stream.len() {
+                    let r2 = run_conn(&[stream[..k].to_vec(), stream[k..].to_vec()], eof, wp);
+                    if r2.show() != w {
+                        res.output.push_str(&format!(" A2:{}", k));
+                        res = res.fail("segmentation-dependent", format!("conn: 2-cut at {} differs: {}", k, first_diff(&r2.show(), &w)));
+                        break;
+                    }
+                }
+                if res.fail.is_none() || !res.output.contains(" A2:") {
+                    if !res.output.contains(" A2:") {
+                        res.output.push_str(" A2:ok");
+                    }
+                }
+            }
+            // the property's own words, evaluated on what the service saw and the socket carried
+            if let RefOut::Run(rm, rend, reason) = &refo {
+                let reason = reason.unwrap_or("?");
+                // (1) requests seen = the reference's requests (complete ones exactly; the last may be partial)
+                let want_m: Vec<Msg> = rm.iter().map(|m| conn_expect(m, rend, eof)).collect();
+                let seen: Vec<String> = r
+                    .calls
+                    .iter()
+                    .enumerate()
+                    .map(|(i, m)| {
+                        let mut m = m.clone();
+                        if want_m.get(i).map(|w| w.done == 'x').unwrap_or(false) && "ieo".contains(m.done) {
+                            m.done = 'x';
+                        }
+                        strip_kind(&m.show())
+                    })
+                    .collect();
+                let want: Vec<String> = want_m.iter().map(|m| strip_kind(&m.show())).collect();
+                if seen.len() > want.len() {
+                    res = res.fail(
+                        if rend.is_reject() { "bytes-after-reject-dispatched" } else { "phantom-request" },
+                        format!("service saw {} requests, the stream holds {} ({})", seen.len(), want.len(), reason),
+                    );
+                } else if seen != want {
+                    let k = (0..want.len()).find(|&i| seen.get(i) != want.get(i)).unwrap();
+                    res = res.fail(
+                        "conn-requests-differ",
+                        format!("request {}: got {} want {}", k, seen.get(k).map(|s| &s[..s.len().min(200)]).unwrap_or("<not dispatched>"), &want[k][..want[k].len().min(200)]),
+                    );
+                }
+                // (2) a malformed message is answered with a 4xx and the connection is closed
+                if rend.is_reject() {
+                    match r.statuses.last() {
+                        Some(s) if (400..500).contains(s) => {}
+                        _ => res = res.fail(&format!("reject-without-4xx:{}", reject_family(reason)), format!("malformed message ({}) but the last response written is {:?}", reason, r.statuses.last())),
+                    }
+                    if !r.closed {
+                        res = res.fail("reject-not-closed", format!("malformed message ({}) but the connection stays open", reason));
+                    }
+                    if r.statuses.iter().filter(|s| (400..500).contains(*s)).count() > 1 {
+                        res = res.fail("several-4xx", format!("{:?}", r.statuses));
+                    }
+                } else {
+                    if r.statuses.iter().any(|s| *s >= 400) {
+                        res = res.fail("rejects-wellformed", format!("well-formed stream answered with {:?}", r.statuses));
+                    }
+                    if eof && !r.closed {
+                        res = res.fail("eof-not-closed", "peer closed but the connection future is still pending".into());
+                    }
+                    if !eof && r.closed {
+                        res = res.fail("closed-early", "keep-alive pipeline of well-formed persistent requests was closed by the server".into());
+                    }
+                }
+                res.tags.push(format!("ref:{}", if rend.is_reject() { "reject" } else { "accept" }));
+                if rend.is_reject() {
+                    res.tags.push(format!("reason:{}", reason));
+                }
+            } else {
+                res.tags.push("ref:out-of-class".into());
+            }
+            res
+        }
+        _ => CaseResult { output: "bad-case".into(), fail: None, nontrivial: false, tags: vec!["bad-case".into()] },
+    }
+}
+
+fn reject_family(reason: &str) -> &'static str {
+    if reason.starts_with("chunk-") {
+        "chunk-syntax"
+    } else {
+        "head"
+    }
+}
+
+/// the service cannot observe the codec's n/p/s classification: drop that field when comparing
+fn strip_kind(s: &str) -> String {
+    let parts: Vec<&str> = s.split(':').collect();
+    if parts.len() != 8 {
+        return s.to_owned();
+    }
+    format!("{}:{}:{}:{}:{}:{}:{}", parts[0], parts[1], parts[2], parts[3], parts[4], parts[6], parts[7])
+}
+
+/// what the recording service should have seen of reference message `m` when the stream ends
+/// as `end` (and the peer then closes or not)
+fn conn_expect(m: &Msg, end: &End, eof: bool) -> Msg {
+    let mut m = m.clone();
+    if m.done == 'p' {
+        m.done = match end {
+            End::RejectIo | End::Reject(_) => 'x', // some payload error
+            _ if eof => 'i',
+            _ => 'p',
+        };
+    }
+    m
+}
+
+/// the generator's ground truth does not distinguish which reject token the codec uses
+fn normalise_reject(s: &str) -> String {
+    s.split(' ').map(|t| if t == "RIO" || t == "R431" { "R400" } else { t }).collect::<Vec<_>>().join(" ")
+}
+
+// ------------------------------------------------------------------------------------------
+// generator: abstract pipelines → wire bytes (own encoder) → segmentation families
+
+#[derive(Clone)]
+struct Chunk {
+    data: Vec<u8>,
+    /// text between the hex size and CRLF (BWS and/or `;ext`)
+    deco: Vec<u8>,
+    upper: bool,
+    zeros: usize,
+}
+
+#[derive(Clone)]
+enum Body {
+    None,
+    Len(Vec<u8>, Vec<u8>), // body, textual form of the Content-Length value
+    Chunked(Vec<Chunk>, Vec<u8>), // chunks, deco of the last-chunk line
+}
+
+#[derive(Clone)]
+struct AbsReq {
+    method: &'static str,
+    target: &'static str,
+    ver: u8,
+    extra: Vec<(String, Vec<u8>, (usize, usize))>, // name as written, value, OWS before/after
+    body: Body,
+    upgrade: bool,
+    lead_crlf: usize,
+    te_name: &'static str,
+    te_val: &'static str,
+    cl_name: &'static str,
+    framing_first: bool,
+}
+
+fn enc_header(out: &mut Vec<u8>, name: &str, val: &[u8], ows: (usize, usize)) {
+    out.extend_from_slice(name.as_bytes());
+    out.push(b':');
+    for i in 0..ows.0 {
+        out.push(if i % 2 == 0 { b' ' } else { b'\t' });
+    }
+    out.extend_from_slice(val);
+    for i in 0..ows.1 {
+        out.push(if i % 2 == 0 { b' ' } else { b'\t' });
+    }
+    out.extend_from_slice(b"\r\n");
+}
+
+fn enc_chunk(out: &mut Vec<u8>, c: &Chunk) {
+    for _ in 0..c.zeros {
+        out.push(b'0');
+    }
+    let h = if c.upper { format!("{:X}", c.data.len()) } else { format!("{:x}", c.data.len()) };
+    out.extend_from_slice(h.as_bytes());
+    out.extend_from_slice(&c.deco);
+    out.extend_from_slice(b"\r\n");
+    out.extend_from_slice(&c.data);
+    out.extend_from_slice(b"\r\n");
+}
+
+impl AbsReq {
+    fn framing_headers(&self) -> Vec<(String, Vec<u8>, (usize, usize))> {
+        let mut v = Vec::new();
+        match &self.body {
+            Body::None => {}
+            Body::Len(_, txt) => v.push((self.cl_name.to_owned(), txt.clone(), (1, 0))),
+            Body::Chunked(..) => v.push((self.te_name.to_owned(), self.te_val.as_bytes().to_vec(), (1, 0))),
+        }
+        if self.upgrade {
+            v.push(("Upgrade".to_owned(), b"websocket".to_vec(), (1, 0)));
+            v.push(("Connection".to_owned(), b"upgrade".to_vec(), (1, 0)));
+        }
+        v
+    }
+
+    fn all_headers(&self) -> Vec<(String, Vec<u8>, (usize, usize))> {
+        let mut v = Vec::new();
+        if self.framing_first {
+            v.extend(self.framing_headers());
+            v.extend(self.extra.iter().cloned());
+        } else {
+            v.extend(self.extra.iter().cloned());
+            v.extend(self.framing_headers());
+        }
+        v
+    }
+
+    fn encode(&self, out: &mut Vec<u8>) {
+        for _ in 0..self.lead_crlf {
+            out.extend_from_slice(b"\r\n");
+        }
+        out.extend_from_slice(self.method.as_bytes());
+        out.push(b' ');
+        out.extend_from_slice(self.target.as_bytes());
+        out.extend_from_slice(if self.ver == 1 { b" HTTP/1.1\r\n" } else { b" HTTP/1.0\r\n" });
+        for (n, v, o) in self.all_headers() {
+            enc_header(out, &n, &v, o);
+        }
+        out.extend_from_slice(b"\r\n");
+        match &self.body {
+            Body::None => {}
+            Body::Len(b, _) => out.extend_from_slice(b),
+            Body::Chunked(cs, last) => {
+                for c in cs {
+                    enc_chunk(out, c);
+                }
+                out.extend_from_slice(b"0");
+                out.extend_from_slice(last);
+                out.extend_from_slice(b"\r\n\r\n");
+            }
+        }
+    }
+
+    /// ground truth: what the application must see of this request
+    fn truth(&self) -> Msg {
+        let hdrs: Vec<(String, Vec<u8>)> =
+            self.all_headers().into_iter().map(|(n, v, _)| (n.to_ascii_lowercase(), v)).collect();
+        let (kind, body) = match &self.body {
+            Body::Chunked(cs, _) => ('p', cs.iter().flat_map(|c| c.data.clone()).collect::<Vec<u8>>()),
+            Body::Len(b, _) if self.upgrade => ('s', b.clone()),
+            Body::Len(b, _) if !b.is_empty() => ('p', b.clone()),
+            _ if self.upgrade || self.method == "CONNECT" => ('s', Vec::new()),
+            _ => ('n', Vec::new()),
+        };
+        Msg {
+            method: self.method.to_owned(),
+            target: self.target.as_bytes().to_vec(),
+            ver: self.ver,
+            hdrs,
+            kind,
+            body,
+            done: if kind == 's' { 'p' } else { 'c' },
+        }
+    }
+}
+
+const METHODS: &[&str] = &["GET", "GET", "GET", "HEAD", "POST", "POST", "PUT", "DELETE", "OPTIONS", "PATCH", "PURGE", "get"];
+const TARGETS: &[&str] = &["/", "/a", "/a/b/c", "/index.html?x=1&y=2", "/%7Euser/x.y-z_", "*", "/p;v=1,2", "http://example.com/abs?q", "/a+b:c@d"];
+const EXTRA: &[(&str, &str)] = &[
+    ("Host", "example.com"),
+    ("host", "localhost:8080"),
+    ("User-Agent", "vh/1 (x; y)"),
+    ("Accept", "*/*"),
+    ("X-A", "1"),
+    ("x-a", "2"),
+    ("X-Empty", ""),
+    ("Cookie", "a=b; c=d"),
+    ("X-Content-Length", "7"),
+    ("Content-Lengthx", "3"),
+    ("X-Transfer-Encoding", "chunked"),
+    ("Content-Type", "text/plain"),
+    ("Accept-Encoding", "gzip, chunked"),
+    ("TE", "trailers"),
+    ("X-Tab", "a\tb"),
+];
+
+fn gen_body_bytes(rng: &mut Rng, n: usize) -> Vec<u8> {
+    match rng.below(4) {
+        // bodies that look like protocol elements
+        0 => b"GET /smuggled HTTP/1.1\r\nHost: x\r\n\r\n0\r\n\r\n".iter().cycle().take(n).cloned().collect(),
+        1 => b"\r\n0\r\n\r\n5\r\n".iter().cycle().take(n).cloned().collect(),
+        2 => (0..n).map(|i| b'a' + (i % 26) as u8).collect(),
+        _ => rng.bytes(n),
+    }
+}
+
+fn gen_size(rng: &mut Rng, big: bool) -> usize {
+    match rng.below(12) {
+        0 => 0,
+        1 => 1,
+        2 => 2,
+        3 => 15,
+        4 => 16,
+        5 => 17,
+        6 if big => rng.range(255, 4100),
+        7 if big && rng.chance(1, 6) => rng.range(32_000, 70_000),
+        _ => rng.range(1, 40),
+    }
+}
+
+fn gen_deco(rng: &mut Rng) -> Vec<u8> {
+    match rng.below(10) {
+        0 => b" ".to_vec(),
+        1 => b"\t \t".to_vec(),
+        2 => b";a=b".to_vec(),
+        3 => b" ;x".to_vec(),
+        4 => b";q=\"1 2;3\"".to_vec(),
+        5 => b";\x80\xff ".to_vec(),
+        _ => Vec::new(),
+    }
+}
+
+fn gen_req(rng: &mut Rng, big: bool, persistent_only: bool) -> AbsReq {
+    let mut method = *rng.pick(METHODS);
+    let mut ver = if rng.chance(1, 5) { 0 } else { 1 };
+    let mut extra: Vec<(String, Vec<u8>, (usize, usize))> = Vec::new();
+    for _ in 0..rng.below(4) {
+        let (n, v) = *rng.pick(EXTRA);
+        let mut val = v.as_bytes().to_vec();
+        if rng.chance(1, 20) {
+            val.extend_from_slice(&[0xe4, 0xf6]); // obs-text
+        }
+        extra.push((n.to_owned(), val, (rng.below(3), rng.below(3))));
+    }
+    let mut body = match rng.below(6) {
+        0 | 1 => Body::None,
+        2 | 3 => {
+            let n = gen_size(rng, big);
+            let b = gen_body_bytes(rng, n);
+            let txt = match rng.below(6) {
+                0 => format!("{:05}", n),
+                _ => format!("{}", n),
+            };
+            Body::Len(b, txt.into_bytes())
+        }
+        _ => {
+            let k = rng.below(5);
+            let mut cs = Vec::new();
+            for _ in 0..k {
+                let n = gen_size(rng, big).max(1);
+                cs.push(Chunk { data: gen_body_bytes(rng, n), deco: gen_deco(rng), upper: rng.chance(1, 3), zeros: if rng.chance(1, 6) { rng.range(1, 3) } else { 0 } });
+            }
+            Body::Chunked(cs, if rng.chance(1, 4) { gen_deco(rng) } else { Vec::new() })
+        }
+    };
+    if matches!(body, Body::Chunked(..)) {
+        ver = 1;
+    }
+    if ver == 0 && method == "POST" && matches!(body, Body::None) {
+        body = Body::Len(Vec::new(), b"0".to_vec());
+    }
+    if persistent_only {
+        if ver == 0 {
+            extra.push(("Connection".into(), b"keep-alive".to_vec(), (1, 0)));
+        }
+        if method == "HEAD" && false {
+            method = "GET";
+        }
+    }
+    AbsReq {
+        method,
+        target: *rng.pick(TARGETS),
+        ver,
+        extra,
+        body,
+        upgrade: false,
+        lead_crlf: if rng.chance(1, 10) { rng.range(1, 2) } else { 0 },
+        te_name: *rng.pick(&["Transfer-Encoding", "transfer-encoding", "TRANSFER-ENCODING", "Transfer-encoding"]),
+        te_val: *rng.pick(&["chunked", "chunked", "Chunked", "CHUNKED"]),
+        cl_name: *rng.pick(&["Content-Length", "content-length", "CONTENT-LENGTH", "Content-length"]),
+        framing_first: rng.chance(1, 2),
+    }
+}
+
+/// malformed-framing classes: (label, wire bytes, expected reject status)
+fn gen_malformed(rng: &mut Rng) -> (&'static str, Vec<u8>, bool) {
+    // returns (class, bytes, is_head_level)
+    let rl = |m: &str, v: &str| format!("{} /m HTTP/{}\r\n", m, v);
+    let mut out = Vec::new();
+    let chunked_head = |out: &mut Vec<u8>| out.extend_from_slice(b"POST /m HTTP/1.1\r\nHost: h\r\nTransfer-Encoding: chunked\r\n\r\n");
+    let classes: &[&'static str] = &[
+        "cl+te", "te+cl", "dup-cl-same", "dup-cl-diff", "cl-plus", "cl-nonnum", "cl-empty", "cl-neg", "cl-hex", "cl-list", "cl-overflow",
+        "cl-inner-space", "te-twice", "te-http10", "te-gzip", "te-gzip-chunked", "te-chunked-gzip", "te-chunked-chunked", "te-identity",
+        "te-xchunked", "te-obs", "post10-nocl", "sp-before-colon", "bad-version", "no-colon", "too-many-headers", "ch-badsize",
+        "ch-empty-size", "ch-lws-only", "ch-ext-only", "ch-lws-digit", "ch-ext-ctl", "ch-size-nolf", "ch-data-nocr", "ch-data-nolf", "ch-overflow",
+        "ch-trailer", "ch-end-nolf", "ch-last-nolf", "ch-last-lws-digit", "ch-bare-lf", "ch-neg", "ch-0x", "oversize",
+    ];
+    let c = *rng.pick(classes);
+    let mut head_level = true;
+    match c {
+        "cl+te" => out.extend_from_slice(format!("{}Content-Length: 4\r\nTransfer-Encoding: chunked\r\n\r\n0\r\n\r\n", rl("POST", "1.1")).as_bytes()),
+        "te+cl" => out.extend_from_slice(format!("{}Transfer-Encoding: chunked\r\nContent-Length: 4\r\n\r\n0\r\n\r\n", rl("POST", "1.1")).as_bytes()),
+        "dup-cl-same" => out.extend_from_slice(format!("{}Content-Length: 3\r\nContent-Length: 3\r\n\r\nabc", rl("POST", "1.1")).as_bytes()),
+        "dup-cl-diff" => out.extend_from_slice(format!("{}Content-Length: 3\r\nX: y\r\ncontent-length: 0\r\n\r\nabc", rl("POST", "1.1")).as_bytes()),
+        "cl-plus" => out.extend_from_slice(format!("{}Content-Length: +3\r\n\r\nabc", rl("POST", "1.1")).as_bytes()),
+        "cl-nonnum" => out.extend_from_slice(format!("{}Content-Length: 3x\r\n\r\nabc", rl("PUT", "1.1")).as_bytes()),
+        "cl-empty" => out.extend_from_slice(format!("{}Content-Length:\r\n\r\n", rl("POST", "1.1")).as_bytes()),
+        "cl-neg" => out.extend_from_slice(format!("{}Content-Length: -1\r\n\r\n", rl("POST", "1.0")).as_bytes()),
+        "cl-hex" => out.extend_from_slice(format!("{}Content-Length: 0x3\r\n\r\nabc", rl("POST", "1.1")).as_bytes()),
+        "cl-list" => out.extend_from_slice(format!("{}Content-Length: 3, 3\r\n\r\nabc", rl("POST", "1.1")).as_bytes()),
+        "cl-overflow" => out.extend_from_slice(format!("{}Content-Length: 18446744073709551616\r\n\r\nabc", rl("POST", "1.1")).as_bytes()),
+        "cl-inner-space" => out.extend_from_slice(format!("{}Content-Length: 1 2\r\n\r\nabc", rl("POST", "1.1")).as_bytes()),
+        "te-twice" => out.extend_from_slice(format!("{}Transfer-Encoding: chunked\r\nTransfer-Encoding: chunked\r\n\r\n0\r\n\r\n", rl("POST", "1.1")).as_bytes()),
+        "te-http10" => out.extend_from_slice(format!("{}Transfer-Encoding: chunked\r\n\r\n0\r\n\r\n", rl("GET", "1.0")).as_bytes()),
+        "te-gzip" => out.extend_from_slice(format!("{}Transfer-Encoding: gzip\r\n\r\n", rl("POST", "1.1")).as_bytes()),
+        "te-gzip-chunked" => out.extend_from_slice(format!("{}Transfer-Encoding: gzip, chunked\r\n\r\n0\r\n\r\n", rl("POST", "1.1")).as_bytes()),
+        "te-chunked-gzip" => out.extend_from_slice(format!("{}Transfer-Encoding: chunked, gzip\r\n\r\n0\r\n\r\n", rl("POST", "1.1")).as_bytes()),
+        "te-chunked-chunked" => out.extend_from_slice(format!("{}Transfer-Encoding: chunked,chunked\r\n\r\n0\r\n\r\n", rl("POST", "1.1")).as_bytes()),
+        "te-identity" => out.extend_from_slice(format!("{}Transfer-Encoding: identity\r\n\r\n", rl("GET", "1.1")).as_bytes()),
+        "te-xchunked" => out.extend_from_slice(format!("{}Transfer-Encoding: xchunked\r\n\r\n0\r\n\r\n", rl("POST", "1.1")).as_bytes()),
+        "te-obs" => {
+            out.extend_from_slice(rl("POST", "1.1").as_bytes());
+            out.extend_from_slice(b"Transfer-Encoding: chunked\xe9\r\n\r\n0\r\n\r\n");
+        }
+        "post10-nocl" => out.extend_from_slice(format!("{}Host: h\r\n\r\n", rl("POST", "1.0")).as_bytes()),
+        "sp-before-colon" => out.extend_from_slice(format!("{}Transfer-Encoding : chunked\r\n\r\n0\r\n\r\n", rl("POST", "1.1")).as_bytes()),
+        "bad-version" => out.extend_from_slice(b"GET /m HTTP/1.2\r\nHost: h\r\n\r\n"),
+        "no-colon" => out.extend_from_slice(format!("{}Host h\r\n\r\n", rl("GET", "1.1")).as_bytes()),
+        "too-many-headers" => {
+            out.extend_from_slice(rl("GET", "1.1").as_bytes());
+            for i in 0..97 {
+                out.extend_from_slice(format!("X-{}: v\r\n", i).as_bytes());
+            }
+            out.extend_from_slice(b"\r\n");
+        }
+        "oversize" => {
+            out.extend_from_slice(rl("GET", "1.1").as_bytes());
+            out.extend_from_slice(b"X-Big: ");
+            out.extend(std::iter::repeat(b'a').take(MAX_BUFFER_SIZE + rng.below(300)));
+        }
+        _ => {
+            head_level = false;
+            chunked_head(&mut out);
+            if rng.chance(1, 2) {
+                out.extend_from_slice(b"3\r\nabc\r\n");
+            }
+            match c {
+                "ch-badsize" => out.extend_from_slice(b"3g\r\nabc\r\n0\r\n\r\n"),
+                "ch-empty-size" => out.extend_from_slice(b"\r\n\r\n"),
+                "ch-lws-only" => out.extend_from_slice(b" \r\n\r\n"),
+                "ch-ext-only" => out.extend_from_slice(b";x=y\r\n\r\n"),
+                "ch-lws-digit" => out.extend_from_slice(b"1 2\r\nab\r\n0\r\n\r\n"),
+                "ch-ext-ctl" => out.extend_from_slice(b"3;a\x01b\r\nabc\r\n0\r\n\r\n"),
+                "ch-size-nolf" => out.extend_from_slice(b"3\rXabc\r\n0\r\n\r\n"),
+                "ch-data-nocr" => out.extend_from_slice(b"3\r\nabcd\r\n0\r\n\r\n"),
+                "ch-data-nolf" => out.extend_from_slice(b"3\r\nabc\rX0\r\n\r\n"),
+                "ch-overflow" => out.extend_from_slice(b"10000000000000000\r\nabc\r\n0\r\n\r\n"),
+                "ch-trailer" => out.extend_from_slice(b"0\r\nX-T: v\r\n\r\n"),
+                "ch-end-nolf" => out.extend_from_slice(b"0\r\n\rX"),
+                "ch-last-nolf" => out.extend_from_slice(b"0\rX\r\n"),
+                "ch-last-lws-digit" => out.extend_from_slice(b"0 0\r\n\r\n"),
+                "ch-bare-lf" => out.extend_from_slice(b"3\nabc\r\n0\r\n\r\n"),
+                "ch-neg" => out.extend_from_slice(b"-3\r\nabc\r\n0\r\n\r\n"),
+                "ch-0x" => out.extend_from_slice(b"0x3\r\nabc\r\n0\r\n\r\n"),
+                _ => unreachable!(),
+            }
+        }
+    }
+    (c, out, head_level)
+}
+
+struct Stream {
+    bytes: Vec<u8>,
+    /// fnv64 of the expected canonical codec output (rejects normalised)
+    expect: u64,
+    cls: String,
+    /// offsets just after each body-carrying message (conn level cuts here)
+    msg_ends: Vec<usize>,
+    has_reject: bool,
+}
+
+fn gen_stream(rng: &mut Rng, big: bool, conn: bool) -> Stream {
+    let n = rng.range(1, if conn { 4 } else { 6 });
+    let inject = if rng.chance(2, 5) { Some(rng.below(n + 1)) } else { None };
+    let mut bytes = Vec::new();
+    let mut truth: Vec<Msg> = Vec::new();
+    let mut end = End::TailHead(0);
+    let mut cls = "none".to_owned();
+    let mut msg_ends = Vec::new();
+    // once set, later bytes are not requests any more (reject, or body of a stream-typed request)
+    let mut stopped = false;
+    // (index into truth, offset of the first body byte) of a stream-typed request
+    let mut stream_from: Option<(usize, usize)> = None;
+    for i in 0..=n {
+        if Some(i) == inject {
+            let (c, b, head_level) = gen_malformed(rng);
+            cls = c.to_owned();
+            if !stopped {
+                if !head_level {
+                    // the chunked request head is delivered, then its body is rejected
+                    let hdr_end = find(&b, b"\r\n\r\n").unwrap() + 4;
+                    let mut m = Msg {
+                        method: "POST".into(),
+                        target: b"/m".to_vec(),
+                        ver: 1,
+                        hdrs: vec![("host".into(), b"h".to_vec()), ("transfer-encoding".into(), b"chunked".to_vec())],
+                        kind: 'p',
+                        body: Vec::new(),
+                        done: 'p',
+                    };
+                    if b[hdr_end..].starts_with(b"3\r\nabc\r\n") {
+                        m.body = b"abc".to_vec();
+                    }
+                    if c == "ch-data-nocr" || c == "ch-data-nolf" {
+                        m.body.extend_from_slice(b"abc");
+                    }
+                    truth.push(m);
+                }
+                end = End::Reject(400);
+                stopped = true;
+            }
+            bytes.extend_from_slice(&b);
+            msg_ends.push(bytes.len());
+            if c == "oversize" {
+                break; // nothing can follow an unterminated head
+            }
+            continue;
+        }
+        if i == n {
+            break;
+        }
+        let mut r = gen_req(rng, big, conn);
+        // stream-typed requests swallow the rest of the connection
+        if !stopped && rng.chance(1, 14) {
+            if rng.chance(1, 2) {
+                r.upgrade = true;
+                r.method = "GET";
+                r.ver = 1;
+                if matches!(r.body, Body::Chunked(..)) {
+                    r.body = Body::None;
+                }
+            } else {
+                r.method = "CONNECT";
+                r.target = "example.com:443";
+                r.body = Body::None;
+            }
+        }
+        let before = bytes.len();
+        r.encode(&mut bytes);
+        if !stopped {
+            let t = r.truth();
+            if t.kind == 's' {
+                let from = before + 2 * r.lead_crlf;
+                let head_end = from + find(&bytes[from..], b"\r\n\r\n").unwrap() + 4;
+                stream_from = Some((truth.len(), head_end));
+                stopped = true;
+                end = End::TailBody;
+                msg_ends.push(head_end);
+            }
+            truth.push(t);
+        }
+        if !matches!(r.body, Body::None) {
+            msg_ends.push(bytes.len());
+        }
+    }
+    // truncate some well-formed streams in the middle (partial last message): no ground truth then,
+    // the reference parser and the metamorphic check still apply
+    let mut truncated = false;
+    if inject.is_none() && !stopped && !conn && rng.chance(1, 4) && bytes.len() > 8 {
+        let k = rng.range(1, bytes.len() - 1);
+        bytes.truncate(k);
+        truncated = true;
+    }
+    if let Some((idx, he)) = stream_from {
+        truth[idx].body = bytes[he..].to_vec();
+    }
+    let expect = if truncated { 0 } else { fnv64(normalise_reject(&show_run(&truth, &end)).as_bytes()) };
+    msg_ends.sort();
+    msg_ends.dedup();
+    Stream { bytes, expect, cls, msg_ends, has_reject: inject.is_some() }
+}
+
+fn cuts_str(c: &[usize]) -> String {
+    format!("c{}", c.iter().map(|x| x.to_string()).collect::<Vec<_>>().join("."))
+}
+
+fn gen(ctx: &Ctx) -> Vec<String> {
+    let mut rng = Rng::new(ctx.seed);
+    let mut cases = Vec::new();
+    let thorough = ctx.tier != Tier::Quick;
+    // ---- codec level
+    let n_streams = ctx.budget(300);
+    for i in 0..n_streams {
+        let big = i % 9 == 0;
+        let st = gen_stream(&mut rng, big, false);
+        let hx = hex(&st.bytes);
+        let x = if st.expect != 0 { format!(" x={:016x}", st.expect) } else { String::new() };
+        let pre = |spec: &str| format!("codec s={}{} cls={} {}", spec, x, st.cls, hx);
+        let len = st.bytes.len();
+        cases.push(pre("w"));
+        if len <= 600 || (thorough && len <= 2500) {
+            cases.push(pre("a2"));
+        } else {
+            for _ in 0..6 {
+                cases.push(pre(&cuts_str(&[rng.below(len + 1)])));
+            }
+        }
+        if len <= 5000 {
+            cases.push(pre("b1"));
+        }
+        for _ in 0..3 {
+            let k = rng.range(2, 9);
+            let mut c: Vec<usize> = (0..k).map(|_| rng.below(len + 1)).collect();
+            if rng.chance(1, 3) {
+                let d = c[0];
+                c.push(d); // an empty read
+            }
+            c.sort();
+            cases.push(pre(&cuts_str(&c)));
+        }
+    }
+    // ---- conn level
+    let n_conn = ctx.budget(200);
+    for _ in 0..n_conn {
+        let st = gen_stream(&mut rng, false, true);
+        let hx = hex(&st.bytes);
+        let len = st.bytes.len();
+        let eof = if st.has_reject { rng.chance(1, 4) } else { rng.chance(1, 2) };
+        let wp = rng.chance(1, 2);
+        let pre = |spec: &str| format!("conn s={} e={} wp={} cls={} {}", spec, eof as u8, wp as u8, st.cls, hx);
+        // schedules never deliver the end of one body-carrying request together with later bytes
+        // (that overlap is the dispatcher's pipelining logic, properties C02/C03)
+        let base: Vec<usize> = st.msg_ends.iter().cloned().filter(|&e| e < len).collect();
+        cases.push(pre(&if base.is_empty() { "w".to_owned() } else { cuts_str(&base) }));
+        for _ in 0..3 {
+            let k = rng.range(1, 6);
+            let mut c: Vec<usize> = (0..k).map(|_| rng.below(len + 1)).collect();
+            c.extend(base.iter().cloned());
+            c.sort();
+            cases.push(pre(&cuts_str(&c)));
+        }
+        if len <= 400 {
+            // every byte its own read ⊇ the cuts after each message
+            cases.push(pre("b1"));
+        }
+    }
+    cases
+}
 
 pub fn prop() -> Prop {
-    Prop {
-        rule: "unimplemented",
-        parallel: false,
-        gen: Box::new(|_| Vec::new()),
-        run: Box::new(|_| CaseResult::ok("unimplemented".to_owned())),
-    }
+    Prop { rule: RULE, parallel: true, gen: Box::new(gen), run: Box::new(run) }
 }
